@@ -384,6 +384,15 @@ impl World {
     fn act(&self) -> PathBuf {
         self.act_dir.as_ref().unwrap_or(&self.dir).join("active.log")
     }
+    /// the active path as it is spelled for the appender: in two materialisations its last component is a reference
+    /// to an environment variable (the appender expands it; Rolling.tla's active file is the file at the expanded path)
+    fn act_spelled(&self) -> PathBuf {
+        if self.mat.unit == 12 || self.mat.unit == 14 {
+            self.act().parent().unwrap().join("$ENV{LV_ROLL_LEAF}")
+        } else {
+            self.act()
+        }
+    }
     fn arch(&self, i: i64) -> PathBuf {
         PathBuf::from(self.pattern_at(&self.dir).replace("{}", &i.to_string()))
     }
@@ -676,7 +685,7 @@ pub fn replay_case(case: &Value, mat: Mat) -> Option<Value> {
                     };
                     let enc_cfg = if mix(si + ops.len()) % 2 == 0 { json!({"pattern": "{m}"}) } else { json!({"kind": "faulty", "pattern": "{m}"}) };
                     let enc_cfg = if ops.iter().any(|o| o["res"] == "encfail") { json!({"kind": "faulty", "pattern": "{m}"}) } else { enc_cfg };
-                    let mut doc = json!({"path": world.act().to_string_lossy(), "encoder": enc_cfg,
+                    let mut doc = json!({"path": world.act_spelled().to_string_lossy(), "encoder": enc_cfg,
                                          "policy": {"trigger": trig_cfg, "roller": roller_cfg}});
                     if !append_mode {
                         doc["append"] = json!(false);
@@ -700,7 +709,7 @@ pub fn replay_case(case: &Value, mat: Mat) -> Option<Value> {
                     Box::new(log4rs::encode::pattern::PatternEncoder::new("{m}"))
                 };
                 let enc: Box<dyn Encode> = Box::new(FaultyEncoder { inner: enc, script: enc_script.clone() });
-                match catch(|| RollingFileAppender::builder().append(append_mode).encoder(enc).build(world.act(), Box::new(policy))) {
+                match catch(|| RollingFileAppender::builder().append(append_mode).encoder(enc).build(world.act_spelled(), Box::new(policy))) {
                     Ok(Ok(a)) => appender = Some(Box::new(a)),
                     Ok(Err(e)) => return fail(si, "appender build failed", json!(e.to_string())),
                     Err(pn) => return fail(si, "appender build panicked", json!(pn)),
@@ -907,6 +916,7 @@ pub fn replay_case(case: &Value, mat: Mat) -> Option<Value> {
 /// `rolling <cases.ndjson> <out.ndjson>`
 pub fn main(args: &[String]) {
     quiet_panics();
+    std::env::set_var("LV_ROLL_LEAF", "active.log");
     let rows = read_ndjson(&args[0]);
     let mats = [
         Mat { unit: 10, gz: false, chunked: false, delete_roller: true, via_config: false, dir_pattern: false, cross_mount: false },
